@@ -78,7 +78,8 @@ func execWriter(args []string, lines [][]string) []string {
 			case len(l) == 3 && l[1] == "bf":
 				id := l[2]
 				w.Before(func(rw flamego.ResponseWriter) {
-					spy.events = append(spy.events, "hook"+id)
+					// what the hook itself observes: nothing has been reported as written yet
+					spy.events = append(spy.events, fmt.Sprintf("hook%s:%d", id, rw.Status()))
 				})
 			case len(l) == 2 && l[1] == "st":
 				obs = w.Status()
